@@ -131,6 +131,8 @@ def _qdocs():
         QDOCS.extend(D.text() for D in docs.pool())
         # the same text under different categories ('f' note vs 'f' dynamic, '*MM60' contextual vs lyric, '.' everywhere)
         QDOCS.append('**kern\t**dynam\t**text\n*MM60\t*\t*MM60\n*clefG2\t*\t*\n=\t=\t=\nf\tf\tf\n4c\t.\tla\n4c\tf\tla\n=\t=\t=\n8r\tp\t4c\n*-\t*-\t*-\n')
+        # invisible barlines (=1- / =-) are tokens of the listing like any other cell
+        QDOCS.append('**kern\t**text\n*clefG2\t*\n=1-\t=1-\n4c\tla\n=-\t=-\n4d\t.\n=3\t=3\n4e\tli\n==\t==\n*-\t*-\n')
     return QDOCS
 
 
@@ -328,7 +330,7 @@ OBLIGATIONS = [
        shard_of=lambda d, sel, style: sel, shards={'quick': 16, 'thorough': 16}, budget_s={'quick': 170, 'thorough': 1800},
        witnesses=[{'d': 0, 'sel': 5, 'style': 0}, {'d': 6, 'sel': 0, 'style': 1}], min_confirmed=3000,
        enumerated='document, filter selection (None, every single category, every pair), argument shape',
-       bounds={'quick': '7 documents (pool + one with the same text under different categories) x 704 selections x {list, tuple, set}', 'thorough': 'same'}),
+       bounds={'quick': '8 documents (pool + one with the same text under different categories + one with invisible barlines) x 704 selections x {list, tuple, set}', 'thorough': 'same'}),
     Ob(id='C17.c', fn=ob_c, title='comment query with an arbitrary key string',
        budget_s={'quick': 150, 'thorough': 900}, witnesses=[{'key': 'OTL', 'clear': True, 'use_none': False}, {'key': '', 'clear': False, 'use_none': True}],
        min_confirmed=6, symbolic='key string', enumerated='clear flag, None',
